@@ -10,6 +10,9 @@ NOT_YET = {}
 for f in sorted((VERIF / "harness" / "manifest.d").glob("*.py")):
     exec(f.read_text())
 
+# only properties the coordinator has integrated (committed, green on the unchanged tree) are claimed
+ENABLED = (VERIF / "harness" / "manifest.d" / "ENABLED").read_text().split()
+CLAIMED = {k: v for k, v in CLAIMED.items() if k in ENABLED}
 checks = []
 for pid in sorted(CLAIMED):
     t = CLAIMED[pid]
